@@ -586,7 +586,11 @@ func c12SpawnScenario(id string, depth, fan int, seed int64) core.Scenario {
 				c.Violationf("Spawn:orphan-wrong-message", rep, "orphan processed %d", m)
 			}
 		case <-time.After(20 * time.Second):
-			c.Violationf("Spawn:orphan-dead", rep, "an actor spawned from a closed parent does not process messages")
+			if quiet, _ := core.QuietNow(); quiet {
+				c.Violationf("Spawn:orphan-dead", rep, "an actor spawned from a closed parent does not process messages")
+			} else {
+				c.Inconclusive("orphan probe still in progress after 20 s")
+			}
 		}
 		for _, n := range all[1:] {
 			n.a.Close()
